@@ -97,7 +97,7 @@ def read_rows(path=None):
             r = {
                 "line": lineno, "index": idx, "Z": z, "symbol": c[3].strip(), "A": a,
                 "isotope": c[5], "abundance": _num(c[6]), "daughter": c[7],
-                "Thalf_str": " ".join((c[8], c[9])),
+                "Thalf_str": " ".join((c[8], c[9])), "Thalf_text": c[8].strip(), "Thalf_unit": c[9].strip(),
                 "reaction": c[12], "fast": c[13] == "y",
                 "thermalXS": _num(c[14]), "gT": _num(c[15]), "resonance": _num(c[16]),
                 "Thalf_hrs": _num(c[17]), "Thalf_parent": _num(c[19]),
@@ -110,6 +110,88 @@ def read_rows(path=None):
             r["row"] = len(rows)
             rows.append(r)
     return rows
+
+
+# ----------------------------------------------------------------------
+# Consistency of the table with itself.  No single cell is trusted: a number that
+# the table gives twice (the parent half-life of a 'b'/'2n' row and the half-life
+# of the row that produces that parent; a half-life as value+unit and in hours; the
+# half-life of one nuclide under several targets) has to agree with itself.
+# The relations were tabulated on the pinned tree; rows that already disagree
+# there are listed here (they are reported as notes, not asserted).
+HOURS = {"s": 1.0 / 3600, "m": 1.0 / 60, "h": 1.0, "d": 24.0, "y": 8760.0}   # the table uses 365-day years
+
+PREEXISTING = {
+    # production cross section of the b/2n row differs from the row that makes its parent
+    # (keys: target, daughter, the table's own row index)
+    "parent-cross-section": {("P-31", "P-33", 41), ("Ge-76", "Ge-78s", 169), ("Rh-103", "Rh-105", 262),
+                             ("Pd-110", "Ag-111", 271), ("Sn-124", "Sb-125", 310), ("Te-130", "Te-132", 329),
+                             ("Ce-136", "La-137", 374), ("Au-198", "Au-199", 496)},
+    # burn-up cross section of the 2n intermediate differs from the intermediate's own row
+    "intermediate-cross-section": {("P-31", "P-33", 41), ("Te-130", "Te-132", 329)},
+    # value+unit says 69.4 d, the hours column says 69.4
+    "halflife-units": {("W-186", "W-188", 463)},
+    # one nuclide, different half-lives in different rows
+    "daughter-halflife": {"O-19", "Ne-23", "Mg-27", "Al-28", "S-37", "Sc-47", "Ti-51", "Co-60m+", "Zn-69ms", "Rb-88",
+                          "Te-127", "Ba-137m", "Sm-151", "Tm-171", "Au-199"},
+}
+
+
+def feeding_row(rows, i):
+    """The row that produces the radioactive parent of the 'b'/'2n' row i: the table
+    header says the parent is on the line directly above; where that line is itself a
+    decay-fed ('b') row the chain continues upwards to the activation step."""
+    j = i - 1
+    while j > 0 and rows[j]["reaction"] == "b":
+        j -= 1
+    return rows[j]
+
+
+def table_consistency(rows):
+    """(violations, notes): violations = [(bucket suffix, message)] of relations that
+    hold for every row of the pinned table; notes = pre-existing disagreements."""
+    bad, notes = [], []
+
+    def report(kind, key, msg):
+        if key in PREEXISTING.get(kind, ()):
+            notes.append("%s: %s" % (kind, msg))
+        else:
+            bad.append((kind + "-mismatch", msg))
+
+    for i, r in enumerate(rows):
+        label = "%s -> %s (%s, row %d)" % (r["isotope"], r["daughter"], r["reaction"], r["index"])
+        key = (r["isotope"], r["daughter"], r["index"])
+        if r["reaction"] in ("b", "2n"):
+            f = feeding_row(rows, i)
+            flabel = "%s -> %s (row %d)" % (f["isotope"], f["daughter"], f["index"])
+            if r["Thalf_parent"] != f["Thalf_hrs"]:
+                report("parent-halflife", key, "%s uses a parent half-life of %r h, but %s, which makes that parent, "
+                       "tabulates %r h" % (label, r["Thalf_parent"], flabel, f["Thalf_hrs"]))
+            if (r["thermalXS"], r["resonance"]) != (f["thermalXS"], f["resonance"]):
+                report("parent-cross-section", key, "%s produces its parent with (thermal, resonance) = %r b, %s says %r b"
+                       % (label, (r["thermalXS"], r["resonance"]), flabel, (f["thermalXS"], f["resonance"])))
+            if r["reaction"] == "2n" and rows[i - 1]["reaction"] != "b" and \
+                    (r["thermalXS_parent"], r["resonance_parent"]) != (f["thermalXS_parent"], f["resonance_parent"]):
+                report("intermediate-cross-section", key, "%s captures on the intermediate with %r b, %s burns it up with %r b"
+                       % (label, (r["thermalXS_parent"], r["resonance_parent"]), flabel,
+                          (f["thermalXS_parent"], f["resonance_parent"])))
+        try:
+            hours = float(r["Thalf_text"]) * HOURS[r["Thalf_unit"]]
+        except (ValueError, KeyError):
+            bad.append(("halflife-units-mismatch", "%s: half-life %r %r is not a number with a unit s/m/h/d/y"
+                        % (label, r["Thalf_text"], r["Thalf_unit"])))
+        else:
+            if abs(hours - r["Thalf_hrs"]) > 1e-5 * r["Thalf_hrs"]:
+                report("halflife-units", key, "%s: half-life %s %s = %r h, the hours column says %r"
+                       % (label, r["Thalf_text"], r["Thalf_unit"], hours, r["Thalf_hrs"]))
+    by_name = {}
+    for r in rows:
+        by_name.setdefault(r["daughter"], {}).setdefault(r["Thalf_hrs"], []).append(r["isotope"])
+    for name in sorted(by_name):
+        if len(by_name[name]) > 1:
+            report("daughter-halflife", name, "%s has several half-lives: %s"
+                   % (name, "; ".join("%r h from %s" % (t, ",".join(sorted(set(w)))) for t, w in sorted(by_name[name].items()))))
+    return bad, notes
 
 
 def shared_daughters(rows):
